@@ -9,4 +9,4 @@ Extraction "extracted/C15_model.ml" xb_types
   it_run next_row merge_of_b count_seg
   run_paths run_paths_bare spec_paths canon_of
   run_applies spec_applies
-  read_csv csv_spec print_csv.
+  read_csv csv_spec print_csv valid_delim comma_of line_ok.
